@@ -12,14 +12,27 @@ Stage R  (rel) Python evaluates  a*Q(sqrt(b*snr))  etc. with scipy's erfc for SN
          compares with calcTheoreticalSER / BER / PER / SpectralEfficiency of the same object (scalars,
          1-d and 2-d arrays, packet lengths 1..10^4), and checks range, monotonicity, the limit at
          very high SNR, BER <= SER <= k*BER and, for PSK, exact <= bound <= 2*exact against the exact
-         AWGN symbol error rate (Craig's integral, scipy quad).  erfc and quad are trusted."""
+         AWGN symbol error rate (Craig's integral, scipy quad).  erfc and quad are trusted.
+Stage H  HISTORIES of queries on one modulator object: spec/modem/ErrQuery.tla enumerates every history of
+         {query fn in SER/BER/PER/SE/SE0 with the caller's SNR buffer itself / a copy / a view / a list / a
+         float / an int, advance the buffer IN PLACE}; PureFunction (a query returns the curve at the CURRENT
+         contents) holds, Dev.CachesByIdentity is found.  The emitted state graph is covered transition by
+         transition (plus random walks) on a fresh real object per path, for every modulator class/order;
+         each query is compared with the forms evaluated at Base + (the shift TLC emitted) and the buffer
+         must not be modified by a query."""
 import math
 from concurrent.futures import ThreadPoolExecutor
 
 import numpy as np
 
-from .. import tlc
+from .. import tlc, graph
 from . import constellation_common as cc
+
+ERRQ = "modem/ErrQuery.tla"
+BASE = np.array([-30.0, -17.0, -4.0, 3.0, 12.0])       # the caller's SNR buffer before any shift (dB, integers)
+STEPS, MAXSHIFT = [12, 36], 48                          # in-place increments; Base + 48 reaches 60 dB
+FNS = ["SER", "BER", "PER", "SE", "SE0"]
+HOWS = ["buffer", "copy", "view", "list", "scalar", "int"]
 
 CARE = ["WellFormed", "Bijective", "Unchecked", "Accepts"]
 SNR_DB = np.arange(-30, 61, dtype=float)          # quick: 91 integer points (thorough: 364 points, see run)
@@ -196,6 +209,122 @@ def judge(ctx, name, spec, step, obj, pr, exact=True):
             ctx.ok((name, "exact<=bound<=2exact"), n=int(use.sum()))
 
 
+# ------------------------------------------------------------------ stage H: query histories
+def errq_cfg(dev=False, emit=True):
+    defs = {"Dev": tlc.tla({"CachesByIdentity": bool(dev)})}
+    cfg = tlc.cfg_text(constants={"Steps": tlc.tla(set(STEPS)), "MaxShift": str(MAXSHIFT), "Fns": tlc.tla(set(FNS)),
+                                  "Hows": tlc.tla(set(HOWS))},
+                       defs=defs, invariants=["TypeOK", "PureFunction"], view="View",
+                       action_constraints=["Emit"] if emit else [])
+    return cfg, defs
+
+
+def expected_query(pr, fn, values, L):
+    ser, ber = forms(pr, values)
+    k = pr["k"]
+    if fn == "SER":
+        return ser, (ULP1 if pr["form"] == "product" else 1e-300)
+    if fn == "BER":
+        return ber, 1e-300
+    if fn == "PER":
+        return per_of(ber, L), ULP1 * (L + 1)
+    if fn == "SE":
+        return k * (1.0 - per_of(ber, L)), k * ULP1 * (L + 1)
+    return k * (1.0 - ber), k * ULP1
+
+
+def run_history(job):
+    """job = (spec, params, path edges, L, seed) -> (queries ok, violations).  One fresh object per path."""
+    spec, pr, edges, L, seed = job
+    obj = cc.make(spec["kind"], spec["M"], (spec.get("phases") or [0.0])[0])
+    for ph in (spec.get("phases") or [0.0])[1:]:
+        obj.setPhaseOffset(ph)
+    buf = BASE.copy()
+    shift = 0
+    okc, viol = 0, []
+    for i, e in enumerate(edges):
+        if e["fn"] == "advance":
+            buf += e["d"]                       # in place: same object, new contents
+            shift += e["d"]
+            continue
+        j = (seed + i) % len(BASE)
+        how, fn = e["how"], e["fn"]
+        arg = {"buffer": buf, "copy": buf.copy(), "view": buf[:], "list": [float(v) for v in buf], "scalar": float(buf[j]),
+               "int": int(buf[j])}[how]
+        values = BASE + e["at"]                 # where TLC says the returned curve must be evaluated
+        if how in ("scalar", "int"):
+            values = values[j]
+        exp, at = expected_query(pr, fn, values, L)
+        try:
+            call = {"SER": lambda: obj.calcTheoreticalSER(arg), "BER": lambda: obj.calcTheoreticalBER(arg),
+                    "PER": lambda: obj.calcTheoreticalPER(arg, L), "SE": lambda: obj.calcTheoreticalSpectralEfficiency(arg, L),
+                    "SE0": lambda: obj.calcTheoreticalSpectralEfficiency(arg)}[fn]
+            got = np.asarray(call(), dtype=float)
+        except TypeError as ex:
+            if how == "list":                   # lists are outside "scalars or arrays"; refusing them is not judged
+                continue
+            viol.append({"step": i, "what": f"{fn}({how}) raised TypeError: {ex}"})
+            break
+        except Exception as ex:
+            viol.append({"step": i, "what": f"{fn}({how}) raised {type(ex).__name__}: {ex}"})
+            break
+        if not close(got, exp, at):
+            viol.append({"step": i, "what": f"{fn} of the {how} argument holding {np.atleast_1d(BASE + shift if how not in ('scalar', 'int') else (BASE + shift)[j]).tolist()} dB "
+                                          f"returned {np.atleast_1d(got).tolist()}, the curve at these values is {np.atleast_1d(exp).tolist()} "
+                                          f"(step {i} of the history {[x['fn'] + ':' + x['how'] for x in edges[:i + 1]]})"})
+            break
+        if not np.array_equal(buf, BASE + shift):
+            viol.append({"step": i, "what": f"{fn}({how}) modified the caller's SNR array"})
+            break
+        okc += 1
+    return okc, viol
+
+
+def history_stage(ctx, objects):
+    """objects: list of (spec, params).  Returns number of paths replayed."""
+    from concurrent.futures import ThreadPoolExecutor
+    import random
+    with ThreadPoolExecutor(2) as ex:
+        f1 = ex.submit(lambda: tlc.run(ERRQ, errq_cfg()[0], defs=errq_cfg()[1], coverage=True, timeout=900))
+        f2 = ex.submit(lambda: tlc.run(ERRQ, errq_cfg(dev=True, emit=False)[0], defs=errq_cfg(dev=True)[1], timeout=900))
+        r, rdev = f1.result(), f2.result()
+    ctx.account(r, ERRQ, "query histories")
+    if rdev.violated != "PureFunction":
+        raise tlc.TlcError(f"ErrQuery.tla: Dev.CachesByIdentity was expected to violate PureFunction, TLC reported {rdev.violated}")
+    ctx.notes.setdefault("deviations_refuted_by_model", {})["CachesByIdentity"] = rdev.violated
+    if not any(e["fn"] != "advance" for e in r.emitted):
+        raise tlc.TlcError("ErrQuery.tla emitted no query transition (vacuous history stage)")
+    g = graph.Graph(r.emitted, label=lambda e: graph.key([e["fn"], e["how"], e["d"]]))
+    root = g.roots()[0]
+    rng = random.Random(ctx.seed)
+    paths = g.transition_cover(root, max_len=12, rng=rng)
+    paths += g.random_walks(root, 400 if ctx.tier == "thorough" else 40, 14, rng)
+    jobs = []
+    for oi, (spec, pr) in enumerate(objects):
+        for pi, p in enumerate(paths):
+            # every modulator runs every path in the thorough tier, a rotating third of them in the quick tier
+            if ctx.tier != "thorough" and (pi + oi) % 3:
+                continue
+            jobs.append((spec, pr, [{k: e[k] for k in ("fn", "how", "d", "at")} for e in g.path_edges(p)], PACKETS[(pi + oi) % len(PACKETS)], pi + oi))
+    res = cc_pool(run_history, jobs)
+    for job, (okc, viol) in zip(jobs, res):
+        ctx.ok(n=okc)
+        ctx.trace_done()
+        for v in viol[:1]:
+            ctx.violation(f"{job[0]['kind']}({job[0]['M']}) query history: {v['what']}",
+                          {"stage": "H", "spec": job[0], "params": job[1], "path": job[2], "L": job[3], "seed": job[4], "failing": v})
+    for _, _, e in g.edges:
+        ctx.distinct.add(("H", graph.key(e["pre"]), e["fn"], e["how"], e["d"]))
+    ctx.sample({"stage": "H", "history": [f"{e['fn']}:{e['how']}" for e in g.path_edges(paths[len(paths) // 3])]})
+    ctx.notes["query_history_graph"] = {"states": len(g.nodes), "edges": len(g.edges), "paths": len(paths), "replayed": len(jobs)}
+    return len(jobs)
+
+
+def cc_pool(fn, items):
+    from ..core import pool_map
+    return pool_map(fn, items, chunksize=max(1, len(items) // 64))
+
+
 def object_specs(ctx):
     th = ctx.tier == "thorough"
     rng = np.random.RandomState(ctx.seed + 16)
@@ -237,6 +366,7 @@ def run(ctx):
     traces = [t for t, _ in recs]
     verdicts = cc.validate(ctx, traces, CARE, "tables")
     nobj = 0
+    hobjs = []
     for (tr, live), vd in zip(recs, verdicts):
         cc.report(ctx, tr, vd, CARE, "(C16: no error-rate parameters can be derived from this table)")
         ctx.trace_done()
@@ -258,9 +388,13 @@ def run(ctx):
             continue
         judge(ctx, name, tr["spec"], step, obj, pr, exact=(ctx.tier == "thorough" or tr["m"] <= 1024))
         nobj += 1
+        hobjs.append((tr["spec"], pr))
         if tr["kind"] == "QAM" and tr["m"] == 16:
             ctx.sample({"stage": "T+R", "modulator": name, "recorded_scale": tr["events"][0]["scale"], "params_from_TLC": pr,
                         "ser_at_10dB": float(forms(pr, 10.0)[0]), "implementation": float(obj.calcTheoreticalSER(10.0))})
+    nh = history_stage(ctx, hobjs)
+    ctx.require_actions(["Advance"])
+    ctx.notes["query_histories_replayed"] = nh
     ctx.sample({"stage": "M", "reference_machine_params": {f"{k[0]}{k[1]}": v for k, v in list(ref.items())[:3]}})
     ctx.exhaustive = False
     ctx.notes["bounds"] = {"modulators": nobj, "snr_db": [-30, 60], "snr_points": int(len(SNR_DB)), "packet_lengths": PACKETS}
@@ -272,6 +406,12 @@ def replay(ctx, data):
         tr, _ = cc.record_history(c["spec"])
         vd = cc.validate(ctx, [tr], CARE, "replay", nparts=1)[0]
         cc.report(ctx, tr, vd, CARE)
+        return
+    if c.get("stage") == "H":
+        okc, viol = run_history((c["spec"], c["params"], c["path"], c["L"], c["seed"]))
+        ctx.ok(n=okc)
+        for v in viol[:1]:
+            ctx.violation(f"replay: {v['what']}", c)
         return
     tr, live = cc.record_history(c["spec"])
     judge(ctx, "replay", c["spec"], c["step"], live[0], c["params"])
